@@ -112,7 +112,13 @@ MapOver(ans, S, F(_)) ==
   /\ Len(ans.v) = Cardinality(S)
   /\ \A i \in DOMAIN ans.v : ans.v[i][1] \in S => ans.v[i][2] = F(ans.v[i][1])
 
-InUnit(r) == r[2] > 0 /\ r[1] >= 0 /\ r[1] <= r[2]
+RatMapOver(ans, S, F(_)) ==
+  /\ ans.e = ""
+  /\ {ans.v[i][1] : i \in DOMAIN ans.v} = S
+  /\ Len(ans.v) = Cardinality(S)
+  /\ \A i \in DOMAIN ans.v : ans.v[i][1] \in S => RatMatches(ans.v[i][2], F(ans.v[i][1]))
+
+InUnit(r) == IF r[2] = -1 THEN r[1] >= 0 /\ r[1] <= 1000000 ELSE r[2] > 0 /\ r[1] >= 0 /\ r[1] <= r[2]
 
 (* the node set a call speaks about: the whole graph, or the given subset *)
 Scope(g, c) == IF c.all THEN Names(g) ELSE Range(c.nodes)
@@ -127,7 +133,7 @@ ClusterChecks(g, a) ==
         IF multi THEN c.ans.e = "WrongMethod"
         ELSE IF c.weighted /\ HasNaNAt(g, Keys(g)) THEN c.ans.e = "EdgeWeightNotSpecified"
         ELSE (c.weighted => AllCubes(g)) =>
-               /\ MapOver(c.ans, Scope(g, c), LAMBDA v : Clustering(g, c.weighted, v))
+               /\ RatMapOver(c.ans, Scope(g, c), LAMBDA v : Clustering(g, c.weighted, v))
                /\ \A j \in DOMAIN c.ans.v : InUnit(c.ans.v[j][2])>>,
     <<"average_clustering", \A i \in DOMAIN a.average :
         LET c == a.average[i] IN
@@ -135,7 +141,7 @@ ClusterChecks(g, a) ==
         ELSE IF c.weighted /\ HasNaNAt(g, Keys(g)) THEN c.ans.e = "EdgeWeightNotSpecified"
         ELSE (c.weighted => AllCubes(g)) =>
                \A x \in {AverageClustering(g, c.weighted, Scope(g, c), c.count_zeros)} :
-                  x[2] # 0 => (c.ans.e = "" /\ c.ans.v = x)>>,
+                  x[2] # 0 => (c.ans.e = "" /\ RatMatches(c.ans.v, x))>>,
     <<"triangles", \A i \in DOMAIN a.triangles :
         LET c == a.triangles[i] IN
         IF dir \/ multi THEN c.ans.e = "WrongMethod"
@@ -152,11 +158,11 @@ ClusterChecks(g, a) ==
                       /\ Len(c.ans.v[j][2]) = Cardinality(GenDegree(g, c.ans.v[j][1]))>>,
     <<"transitivity",
         IF dir \/ multi THEN a.transitivity.e = "WrongMethod"
-        ELSE a.transitivity.e = "" /\ a.transitivity.v = Transitivity(g) /\ InUnit(a.transitivity.v)>>,
+        ELSE a.transitivity.e = "" /\ RatMatches(a.transitivity.v, Transitivity(g)) /\ InUnit(a.transitivity.v)>>,
     <<"square_clustering", \A i \in DOMAIN a.square :
         LET c == a.square[i] IN
         (~dir /\ ~multi) =>
-           /\ MapOver(c.ans, Scope(g, c), LAMBDA v : SquareClustering(g, v))
+           /\ RatMapOver(c.ans, Scope(g, c), LAMBDA v : SquareClustering(g, v))
            /\ \A j \in DOMAIN c.ans.v : InUnit(c.ans.v[j][2])>>
   >>
 =============================================================================
